@@ -671,3 +671,32 @@ func (w *World) elemTerm(ss, es, h, s, i string) string {
 func (w *World) structID(t types.Type) int {
 	return w.typeID(types.NewPointer(origin(types.Unalias(t)))) + 1000
 }
+
+var srcCache = map[string][]string{}
+
+// srcLine returns the trimmed text of the source line of pos ("" if unknown)
+func (w *World) srcLine(p token.Pos) string {
+	if !p.IsValid() {
+		return ""
+	}
+	ps := w.fset.Position(p)
+	lines, ok := srcCache[ps.Filename]
+	if !ok {
+		b, err := os.ReadFile(ps.Filename)
+		if err == nil {
+			lines = strings.Split(string(b), "\n")
+		}
+		srcCache[ps.Filename] = lines
+	}
+	if ps.Line-1 < len(lines) && ps.Line >= 1 {
+		t := strings.TrimSpace(lines[ps.Line-1])
+		if i := strings.Index(t, "//"); i > 0 {
+			t = strings.TrimSpace(t[:i])
+		}
+		if len(t) > 70 {
+			t = t[:70]
+		}
+		return t
+	}
+	return ""
+}
